@@ -15,7 +15,8 @@ package main
 // (binding / leftDenotation are unexported fields of parser.ASTNode; they are read
 // by reflection. raw = !AllowEscapes.)
 //
-//	result : txt=<hex of PrettyPrint(ast)> rt=ok|diff|noparse|* idem=ok|diff|na|* [ff=ok|diff|…] [beh=ok|diff]
+//	result : txt=<hex of PrettyPrint(ast)> rt=ok|diff|noparse|* idem=ok|diff|na|* [eqm=ok|diff] [ff=ok|diff|…] [beh=ok|diff]
+//	eqm  : only when rt=diff — tree equality modulo the known local differences (raw flag, product association)
 //
 // rt   : Go re-parses its own output; trees compared by c08Equal (ignores positions,
 //        comments, blank lines; includes names, values, nesting, raw-vs-interpolating kind).
@@ -140,6 +141,112 @@ func c08Equal(a, b *parser.ASTNode) bool {
 		}
 	}
 	return true
+}
+
+// c08EqualMod: equality modulo the two known LOCAL differences — the raw flag of string tokens and the
+// association of a product / quotient that is the right operand of a product (`a * (b * c)` ≡ `(a * b) * c`,
+// `a * (b / c)` ≡ `(a * b) / c`). Everything else (names, values, nesting) must agree.
+func c08EqualMod(a, b *parser.ASTNode) bool {
+	return c08EqualM(c08Rotate(a), c08Rotate(b))
+}
+
+type c08N struct {
+	name     string
+	tok      *parser.LexToken
+	children []*c08N
+}
+
+// c08Rotate copies the tree with every times(x, times(y, z)) / times(x, div(y, z)) rotated to the left.
+func c08Rotate(n *parser.ASTNode) *c08N {
+	if n == nil {
+		return nil
+	}
+	r := &c08N{name: n.Name, tok: n.Token}
+	for _, c := range n.Children {
+		r.children = append(r.children, c08Rotate(c))
+	}
+	return c08RotNode(r)
+}
+
+func c08Mul120(name string) bool {
+	return name == parser.NodeTIMES || name == parser.NodeDIV || name == parser.NodeDIVINT || name == parser.NodeMODINT
+}
+
+// without the brackets the product is spliced into the left spine of its right operand: the leftmost operand y
+// of the chain of equal-binding operators (* / // %) becomes x * y
+func c08RotNode(r *c08N) *c08N {
+	for r.name == parser.NodeTIMES && len(r.children) == 2 && r.children[1] != nil && len(r.children[1].children) == 2 &&
+		(r.children[1].name == parser.NodeTIMES || r.children[1].name == parser.NodeDIV) {
+		x, top := r.children[0], r.children[1]
+		// copy the left spine
+		var spine []*c08N
+		for n := top; n != nil && c08Mul120(n.name) && len(n.children) == 2; n = n.children[0] {
+			spine = append(spine, n)
+		}
+		bottom := spine[len(spine)-1]
+		cur := c08RotNode(&c08N{name: parser.NodeTIMES, tok: r.tok, children: []*c08N{x, bottom.children[0]}})
+		for i := len(spine) - 1; i >= 0; i-- {
+			cur = &c08N{name: spine[i].name, tok: spine[i].tok, children: []*c08N{cur, spine[i].children[1]}}
+		}
+		r = cur
+	}
+	return r
+}
+
+// c08HasMulRight: class mul-right-brackets — a times node whose right child is times or div
+func c08HasMulRight(n *parser.ASTNode) bool {
+	return c08Any(n, func(x *parser.ASTNode) bool {
+		if x.Name != parser.NodeTIMES || len(x.Children) != 2 || x.Children[1] == nil {
+			return false
+		}
+		r := x.Children[1]
+		if (r.Name != parser.NodeTIMES && r.Name != parser.NodeDIV) || len(r.Children) != 2 {
+			return false
+		}
+		// the brackets are only left out for a pure chain of * and / (fix C08-product-chain-brackets)
+		for c := r; c != nil && c08Mul120(c.Name) && len(c.Children) == 2; c = c.Children[0] {
+			if c.Name == parser.NodeDIVINT || c.Name == parser.NodeMODINT {
+				return false
+			}
+		}
+		return true
+	})
+}
+
+func c08EqualM(a, b *c08N) bool {
+	if a == nil || b == nil {
+		return a == nil && b == nil
+	}
+	if a.name != b.name || len(a.children) != len(b.children) {
+		return false
+	}
+	if a.tok != nil && b.tok != nil {
+		ta, tb := a.tok, b.tok
+		// operator tokens of rotated products are not compared (both are `*` / `/` by the node name)
+		if a.name != parser.NodeTIMES && a.name != parser.NodeDIV && (ta.ID != tb.ID || ta.Identifier != tb.Identifier) {
+			return false
+		}
+		switch ta.ID {
+		case parser.TokenSTRING, parser.TokenNUMBER, parser.TokenIDENTIFIER:
+			if ta.Val != tb.Val {
+				return false
+			}
+		}
+	}
+	for i := range a.children {
+		if !c08EqualM(a.children[i], b.children[i]) {
+			return false
+		}
+	}
+	return true
+}
+
+// c08RawInterp: a raw string literal whose text contains `{{` (printed as an interpolating literal it may
+// evaluate differently — the documented consequence of the known finding raw-string-kind)
+func c08RawInterp(n *parser.ASTNode) bool {
+	return c08Any(n, func(x *parser.ASTNode) bool {
+		return x.Token != nil && x.Token.ID == parser.TokenSTRING && !x.Token.AllowEscapes && strings.Contains(x.Token.Val, "{{")
+	})
 }
 
 // ---- behaviour
@@ -654,21 +761,42 @@ func c08Run(payload string) string {
 		idem = "*"
 	}
 	res := "txt=" + hx(txt) + " rt=" + rt + " idem=" + idem
+	eqm := ""
+	if rt == "diff" {
+		// inside the known classes the trees must still agree modulo the known local difference
+		eqm = "diff"
+		if c08EqualMod(ast, ast2) {
+			eqm = "ok"
+		}
+		res += " eqm=" + eqm
+	}
 	if ff {
 		res += " ff=" + c08FormatFile(src, txt)
 	}
-	if ev && rt != "noparse" && rt != "*" {
-		same := c08Behaviour(src) == c08Behaviour(txt)
-		if rt == "ok" {
+	if ev && (rt == "ok" || (rt == "diff" && eqm == "ok")) {
+		orig := c08Behaviour(src)
+		same := orig == c08Behaviour(txt)
+		// re-association inside mul-right-brackets changes the ORDER of evaluation: when the original raises an
+		// error or has side effects, which error is raised / in which order the effects happen may differ.
+		// Behaviour is demanded there only if the original evaluates to a value without error, side effect or log.
+		mulFree := rt == "diff" && c08HasMulRight(ast) && !(strings.HasPrefix(orig, "v:") && strings.HasSuffix(orig, "||"))
+		if c08RawInterp(ast) {
 			if same {
-				res += " beh=ok"
+				CountRun("raw-with-interpolation.behaviour-same")
 			} else {
-				res += " beh=diff"
+				CountRun("raw-with-interpolation.behaviour-differs")
 			}
+		} else if mulFree {
+			if same {
+				CountRun("mul-right-brackets.error-or-effects.behaviour-same")
+			} else {
+				CountRun("mul-right-brackets.error-or-effects.behaviour-differs")
+			}
+			res += " beh=ok"
 		} else if same {
-			CountRun("rt-diff.behaviour-same")
+			res += " beh=ok"
 		} else {
-			CountRun("rt-diff.behaviour-differs")
+			res += " beh=diff"
 		}
 	}
 	return res
